@@ -412,10 +412,15 @@ def handle (line : String) : Out :=
       if ply > 7 then ⟨"-", "claim-too-deep-for-oracle"⟩ else
       -- the mate is delivered at ply `ply` (1-based count of half-moves from the root)
       let n := if ply % 2 == 1 then ply else ply + 1
-      if !Outcome.forcedMate n s then ⟨"-", s!"false-claim:no-forced-mate-within-{n}"⟩ else
-      match (legalMoves s).find? fun r => r.1 == first with
-      | Option.none => ⟨"-", "first-move-illegal"⟩
-      | some r => ⟨"-", if Outcome.lostIn (n - 1) r.2 then "sound" else "first-move-loses-the-mate"⟩
+      -- C06 claims a forced mate and a first move that keeps it, not a distance: the ply encoded in a score can be
+      -- stale (a table entry re-used at another ply keeps its score: `C06Complete`, finding of session 3), so the
+      -- solver also accepts a mate up to four plies longer than the score says
+      match [n, n + 2, n + 4].find? fun k => Outcome.forcedMate k s with
+      | Option.none => ⟨"-", s!"false-claim:no-forced-mate-within-{n + 4}"⟩
+      | some k =>
+        match (legalMoves s).find? fun r => r.1 == first with
+        | Option.none => ⟨"-", "first-move-illegal"⟩
+        | some r => ⟨"-", if [k - 1, k + 1, k + 3].any fun j => Outcome.lostIn j r.2 then "sound" else "first-move-loses-the-mate"⟩
   | "legalpos" =>
     -- legalpos <fen...> : is the position a legal chess position (`Spec.LegalPos`)?  spec only
     match specOf (rest 1) with
